@@ -27,6 +27,7 @@ func rulesC02(c *Ctx) {
 	c12Registrars(c)
 	c12AnyOf(c)
 	c12Shared(c)
+	c12Unwrap(c)
 }
 
 // c02Count: the retry executor's mutable fields are written only by the executor's own slot methods (and
@@ -51,10 +52,20 @@ func c02Count(c *Ctx) {
 	}
 	var counter FieldRef
 	for _, fr := range fields {
-		n++
 		if fr.Field == "failedAttempts" {
 			counter = fr
 		}
+		// a field only ever set where the executor is built is part of its wiring, not of its per-execution state
+		wired := len(ix.Writers(fr)) > 0
+		for _, w := range ix.Writers(fr) {
+			if !ix.Within(w, func(f *ssa.Function) bool { return canonName(f) == "ToExecutor" }) {
+				wired = false
+			}
+		}
+		if wired && fr.Field != "failedAttempts" {
+			continue
+		}
+		n++
 		ok := true
 		var ws []string
 		for _, w := range ix.Writers(fr) {
